@@ -279,12 +279,13 @@ class RangeLiteral(Expression):
     def _make_range(self, start: Any, stop: Any) -> range:
         try:
             start = to_int(start)
-        except ValueError:
+        except (ValueError, TypeError, OverflowError):
+            # Not something we can cast to an int, like nil, a list or infinity.
             start = 0
 
         try:
             stop = to_int(stop)
-        except ValueError:
+        except (ValueError, TypeError, OverflowError):
             stop = 0
 
         # Descending ranges don't work
@@ -1644,7 +1645,14 @@ class LoopExpression(Expression):
         if isinstance(obj, Mapping):
             return iter(obj.items()), len(obj)
         if isinstance(obj, range):
-            return iter(obj), len(obj)
+            try:
+                return iter(obj), len(obj)
+            except OverflowError as err:
+                # len() is limited to sys.maxsize
+                raise LiquidTypeError(
+                    f"range '{self.iterable}' is too large to loop over",
+                    token=self.token,
+                ) from err
         if isinstance(obj, Sequence):
             return iter(obj), len(obj)
 
